@@ -947,7 +947,10 @@ class Run:
                     continue
                 return False
             if d == "wait_stmt":
-                return True
+                # an optional is entered when the byte can begin its first match; for a wait that is the waited-for pattern itself (the
+                # bytes a wait skips are not the beginning of anything)
+                r = pattern_term(c[0])
+                return RX.deriv(r, b) != RX.EMPTY
             if d in ("case_stmt", "greedy_case_stmt"):
                 _, clauses = self.clause_list(s)
                 if any(cl[3] for cl in clauses):
